@@ -99,6 +99,12 @@ class Duration:
 class Opaque:
     def __init__(s, what): s.what = what
     def __repr__(s): return f"Opaque({s.what})"
+class ArgVal:
+    """opaque argument placeholder used when only the *shape* of a computation matters (key terms)"""
+    def __init__(s, name, ty): s.name = name; s.ty = ty
+    def __repr__(s): return f"<{s.name}: {s.ty}>"
+
+
 class EnvFn:
     """user-supplied callable modelled by the driver: apply(ctx, args) -> value"""
     def __init__(s, name, fn): s.name = name; s.fn = fn
@@ -566,6 +572,8 @@ class Interp:
                 cur = load(Ref(cell, path))
                 if cur is None:
                     cur = Agg('?', 0, []); store(Ref(cell, path), cur)
+                if isinstance(cur, Ref) and pr[1] == 0:
+                    continue        # pointer newtypes (Unique<T> / NonNull<T> inside Box): the wrapped pointer is the reference itself
                 if isinstance(cur, (Agg, Closure, Coroutine)):
                     while len(cur.fields) <= pr[1]: cur.fields.append(None)
                 else: raise Unsupported(f'field .{pr[1]} of {type(cur).__name__} in {f.name}')
